@@ -339,38 +339,43 @@ func emitObjPut(o *Out, r *RNG) {
 	if r.Chance(60) {
 		resPath = "/u/cal/a/" + r.Pick(owNames) + "-stored.ics"
 	}
+	// a path argument relative to the client's endpoint: the backend's absolute path must come back all the same
+	endpoint, arg := "http://example.com/", reqPath
+	if r.Chance(35) {
+		endpoint, arg = "http://example.com/u/", strings.TrimPrefix(reqPath, "/u/")
+	}
+	argCard := strings.Replace(strings.Replace(arg, "cal/", "ab/", 1), ".ics", ".vcf", 1)
 	etag, mod := owETag(r), owTime(r)
 	{
 		b := &calBackend{principal: "/u/", homeSet: "/u/cal/", putResult: &caldav.CalendarObject{Path: resPath, ETag: etag, ModTime: mod}}
 		hc := &handlerClient{h: &caldav.Handler{Backend: b}}
 		cal := randIcal(r)
 		res := guard(func() string {
-			c, _ := caldav.NewClient(hc, "http://example.com/")
-			got, err := c.PutCalendarObject(context.Background(), reqPath, cal)
+			c, _ := caldav.NewClient(hc, endpoint)
+			got, err := c.PutCalendarObject(context.Background(), arg, cal)
 			if err != nil {
 				return errStr(err)
 			}
 			recv := b.lastPut != nil && encodeIcal(b.lastPut) == encodeIcal(cal)
 			return sx("put", b01(recv), hx(got.Path), sxTimeZ(got.ModTime), hx(got.ETag))
 		})
-		o.Emit("obj.put", sx("cal", hx(reqPath), hx(resPath), sxTimeZ(mod), hx(etag)), res)
+		o.Emit("obj.put", sx("cal", hx(arg), hx(resPath), sxTimeZ(mod), hx(etag)), res)
 	}
 	{
-		rp := strings.Replace(strings.Replace(reqPath, "/cal/", "/ab/", 1), ".ics", ".vcf", 1)
 		sp := strings.Replace(strings.Replace(resPath, "/cal/", "/ab/", 1), ".ics", ".vcf", 1)
 		b := &cardBackend{principal: "/u/", homeSet: "/u/ab/", putResult: &carddav.AddressObject{Path: sp, ETag: etag, ModTime: mod}}
 		hc := &handlerClient{h: &carddav.Handler{Backend: b}}
 		card := randVcard(r)
 		res := guard(func() string {
-			c, _ := carddav.NewClient(hc, "http://example.com/")
-			got, err := c.PutAddressObject(context.Background(), rp, card)
+			c, _ := carddav.NewClient(hc, endpoint)
+			got, err := c.PutAddressObject(context.Background(), argCard, card)
 			if err != nil {
 				return errStr(err)
 			}
 			recv := b.lastPut != nil && encodeVcard(b.lastPut) == encodeVcard(card)
 			return sx("put", b01(recv), hx(got.Path), sxTimeZ(got.ModTime), hx(got.ETag))
 		})
-		o.Emit("obj.put", sx("card", hx(rp), hx(sp), sxTimeZ(mod), hx(etag)), res)
+		o.Emit("obj.put", sx("card", hx(argCard), hx(sp), sxTimeZ(mod), hx(etag)), res)
 	}
 }
 
